@@ -44,12 +44,14 @@ def gen_program(rng, n_stmts, max_rows=4, max_len=4, with_assign=True, chain=Fal
                 kind = rng.choice(["assign", "assign", "poke"])
         else:
             kind = rng.choice(["select", "select", "select", "alias", "add_scalar", "add_arrays", "concat", "concat1", "sort", "cumsum", "diff",
-                               "read", "read", "read_idx", "read_sum"] + (["assign", "assign", "assign", "poke"] if with_assign else []))
+                               "read", "read", "read_idx", "read_sum", "read_meta"] + (["assign", "assign", "assign", "poke"] if with_assign else []))
         rows = store.val(x)
         n, m = len(rows), max([len(r) for r in rows], default=0)
         if kind == "select":
             r = ragidx.rowsel_random(n, rng)
-            if r["t"] in ("int", "all") or (chain and rng.random() < 0.5):
+            if n > 0 and rng.random() < 0.12:       # as many rows as the source, with repeats (a resample)
+                r = {"t": "list", "is": [rng.randrange(n) for _ in range(n)]}
+            elif r["t"] in ("int", "all") or (chain and rng.random() < 0.5):
                 # a[...] / a[()] are whole-array ALIASES by design (statement `alias`); a selection of all rows is a[:]
                 r = {"t": "slice", "a": None, "b": None, "k": rng.choice([None, None, -1, 2]) if chain else None}
             c = None
@@ -92,7 +94,37 @@ def gen_program(rng, n_stmts, max_rows=4, max_len=4, with_assign=True, chain=Fal
     for i in range(len(store.vars)):
         if store.vars[i] is not None:
             prog.append({"s": "read", "x": i})
+            if rng.random() < 0.5:
+                prog.append({"s": "read_meta", "x": i})
     return prog
+
+
+def gen_resample_program(rng):
+    """a source whose metadata may have been read, a selection with as many rows as the source but repeats (a resample),
+    then everything that depends on the selection's own size / lengths"""
+    lens = gens.shape_random(rng, 7, 4)
+    if len(lens) < 2 or len(set(lens)) < 2:
+        lens = [3, 0, 1, 2]
+    n = len(lens)
+    cnt = [0]
+    def fresh():
+        cnt[0] += 1; return 300 + cnt[0]
+    rows = [[fresh() % 70 for _ in range(l)] for l in lens]
+    prog = [{"s": "new", "rows": rows, "base": rng.choice(["plain", "stride2"])}]
+    if rng.random() < 0.7:
+        prog.append({"s": rng.choice(["read_meta", "read_sum", "read"]), "x": 0})
+    prog.append({"s": "select", "x": 0, "idx": {"r": {"t": "list", "is": [rng.randrange(n) for _ in range(n)]}, "c": None}})
+    tail = [{"s": "read_meta", "x": 1}, {"s": "read", "x": 1}, {"s": "read_sum", "x": 1}, {"s": "cumsum", "x": 1}, {"s": "read", "x": 2},
+            {"s": "add_scalar", "x": 1, "c": 1}, {"s": "read_meta", "x": 0}]
+    rng.shuffle(tail)
+    # `read x2` refers to the cumsum result only if cumsum comes before it; keep the statements well-scoped
+    out, made = [], 2
+    for st in tail:
+        if st["s"] in ("cumsum", "add_scalar"):
+            out.append(st); out.append({"s": "read", "x": made}); made += 1
+        elif st.get("x", 0) <= 1:
+            out.append(st)
+    return prog + out
 
 
 class RefStore:
@@ -167,8 +199,10 @@ class RefStore:
                 return [kind, v]
             if s == "read_sum":
                 return [sum(r) for r in rows]
+            if s == "read_meta":
+                return [len(rows), sum(len(r) for r in rows), [len(r) for r in rows]]
         except ragidx.Refused:
-            if s in ("read", "read_idx", "read_sum"):
+            if s in ("read", "read_idx", "read_sum", "read_meta"):
                 return "refuse"
             if s not in ("assign", "poke"):
                 self.vars.append(None)
@@ -293,8 +327,10 @@ def run_real(prog, extra_reads=None, variant=0):
                     trace.append(["scalar", int(r)])
             elif s == "read_sum":
                 trace.append([int(v) for v in x.sum(axis=-1)])
+            elif s == "read_meta":
+                trace.append([int(len(x)), int(x.size), [int(v) for v in x.lengths]])
         except Exception as e:
-            if s in ("read", "read_idx", "read_sum"):
+            if s in ("read", "read_idx", "read_sum", "read_meta"):
                 trace.append("refuse")
             else:
                 if s not in ("assign", "poke"):
